@@ -3,6 +3,7 @@ package rules
 import (
 	"fmt"
 	"go/token"
+	"go/types"
 	"strings"
 
 	"dtnverif/core"
@@ -99,6 +100,7 @@ func C18(p *core.Program, r *core.Report) {
 	// the initial budget is set once per bundle (a second announcement of a
 	// held bundle would refresh it)
 	checkNotifyOnce(p, r)
+	checkBudgetEntriesOutliveBundle(p, r)
 
 	g := newGuardedEngine(p)
 	n := g.checkGuarded(r, sprayGuarded, true)
@@ -351,4 +353,40 @@ func allocOfFieldAddr(v ssa.Value) *ssa.Alloc {
 			return nil
 		}
 	}
+}
+
+// checkBudgetEntriesOutliveBundle: "a failed transmission gives its copy back" needs the bundle's budget entry at the
+// time the failure is reported, which is after the selection charged it and may be after any garbage-collection tick in
+// between. An entry of a map of sprayMetaData may therefore be deleted only for a bundle the store no longer knows.
+func checkBudgetEntriesOutliveBundle(p *core.Program, r *core.Report) {
+	n := 0
+	for _, fn := range p.RepoFuncs() {
+		if fn.Pkg != p.Pkg(routingPkg) || fn.Blocks == nil {
+			continue
+		}
+		core.EachInstr(fn, func(in ssa.Instruction) {
+			c, ok := in.(*ssa.Call)
+			if !ok {
+				return
+			}
+			b, isB := c.Common().Value.(*ssa.Builtin)
+			if !isB || b.Name() != "delete" {
+				return
+			}
+			mt, isMap := c.Common().Args[0].Type().Underlying().(*types.Map)
+			if !isMap || !core.TypeIs(mt.Elem(), routingPkg, "sprayMetaData") {
+				return
+			}
+			n++
+			gone := false
+			for _, cd := range core.DominatingConds(in.Block()) {
+				if kc, ok := core.CondIsCall(cd, storagePkg+".Store.KnowsBundle"); ok && !cd.True && core.SameExpr(core.Arg(kc, 0), c.Common().Args[1]) {
+					gone = true
+				}
+			}
+			r.Check(gone, "budget/"+fname(fn)+"/entry-deleted-only-for-gone-bundle", "a bundle's copy budget is forgotten only when the store no longer knows the bundle (on every path to the delete): a failure report for a transmission still in flight must find the entry it refunds", p.Pos(in.Pos()), "", "the entry can be deleted while the bundle is still stored (e.g. in its wait phase): a failure reported afterwards finds no entry and the charged copy is lost")
+		})
+	}
+	r.Min("deletions of budget entries", 1)
+	r.Count("deletions of budget entries", n)
 }
